@@ -29,7 +29,7 @@ MONOTONE = {
     "DT_DAISY": (None, None),     # scalar day count
     "DT_LDN": (None, None),       # scalar day count (Lilian)
     "DT_MDN": (None, None),       # scalar day count (Matlab)
-    "DT_UMMULQURA": ("dt_ummulqura_t", ["y", "m", "d"]),
+    "DT_UMMULQURA": ("dt_ymd_t", ["y", "m", "d"]),   # typedef of dt_ymd_t
 }
 
 
